@@ -36,8 +36,14 @@ pub fn run_one(base: Instant, cfg: &PairCfg, wl: Wl, k: u32, mask: u64, fates: &
 
 /// `mask` applies to the datagrams with emission indices `mask_base..mask_base+64`
 pub fn run_one_at(base: Instant, cfg: &PairCfg, wl: Wl, k: u32, mask: u64, mask_base: u64, fates: &std::collections::BTreeMap<u64, crate::sim::Fate>) -> Out {
+    run_one_masks(base, cfg, wl, k, mask, mask_base, None, fates)
+}
+
+/// `node_mask` = (node, first per-node emission index, mask): drops among the datagrams of one side only
+pub fn run_one_masks(base: Instant, cfg: &PairCfg, wl: Wl, k: u32, mask: u64, mask_base: u64, node_mask: Option<(usize, u64, u64)>, fates: &std::collections::BTreeMap<u64, crate::sim::Fate>) -> Out {
     let r = guarded(|| {
         let mut p = std_pair_pre(base, cfg, wl, ReadMode::default(), |w| {
+            w.node_mask = node_mask;
             w.drop_mask = mask;
             w.mask_base = mask_base;
             w.fates = fates.clone();
@@ -101,7 +107,9 @@ fn replay(args: &Args, path: &std::path::Path) -> ! {
         let devs: Devs = d.iter().map(|x| (x[0].as_u64().unwrap(), x[1].as_u64().unwrap() as u16)).collect();
         fates = fates_of(&devs, &FATE_ALTS);
     }
+    let node_mask = r["node_mask"].as_array().map(|a| (a[0].as_u64().unwrap() as usize, a[1].as_u64().unwrap(), a[2].as_u64().unwrap()));
     let mut p = std_pair_pre(base, cfg, wl, ReadMode::default(), |w| {
+        w.node_mask = node_mask;
         w.drop_mask = mask;
         w.mask_base = mask_base;
         w.fates = fates;
@@ -210,20 +218,36 @@ pub fn main(args: &Args) -> ! {
                     continue;
                 }
                 for mask in 0..(1u64 << km) {
-                    tasks.push((ci, wl, mask));
+                    tasks.push((ci, wl, mask, 5u64));
+                }
+            }
+        }
+        // flow-control-limited transfers: the sender depends on every MAX_DATA / MAX_STREAM_DATA /
+        // MAX_STREAMS the receiver issues, so losses of credit frames and of their retransmissions
+        // combine (several window positions: credit frames recur throughout the transfer)
+        for name in ["connwin1500", "tinywin", "win63", "streams1"] {
+            let Some(ci) = cfgs.iter().position(|c| c.client.name == name) else { continue };
+            for wl in [Wl::W1, Wl::W2] {
+                if !thorough && wl != Wl::W1 && name != "streams1" {
+                    continue;
+                }
+                for first in if thorough { vec![5u64, 9, 13, 17, 21] } else { vec![6u64, 12] } {
+                    for mask in 0..(1u64 << km.min(10)) {
+                        tasks.push((ci, wl, mask, first));
+                    }
                 }
             }
         }
         let planned = tasks.len();
-        let (res, capped) = e3(tasks, dl, |(ci, wl, mask)| run_one_at(base, &cfgs[*ci], *wl, 6, *mask, 5, &Default::default()));
+        let (res, capped) = e3(tasks, dl, |(ci, wl, mask, first)| run_one_at(base, &cfgs[*ci], *wl, 6, *mask, *first, &Default::default()));
         rep.exhaustive &= !capped;
         let mut basehash: std::collections::BTreeMap<(usize, String), u64> = Default::default();
-        for ((ci, wl, mask), o) in &res {
+        for ((ci, wl, mask, _), o) in &res {
             if *mask == 0 {
                 basehash.insert((*ci, format!("{wl:?}")), o.trace);
             }
         }
-        for ((ci, wl, mask), o) in &res {
+        for ((ci, wl, mask, first), o) in &res {
             rep.evaluations += 1;
             if Some(&o.trace) != basehash.get(&(*ci, format!("{wl:?}"))) {
                 rep.distinct.insert(o.trace);
@@ -231,12 +255,47 @@ pub fn main(args: &Args) -> ! {
             if let Some((sig, what)) = o.viol.first() {
                 rep.violation(Violation {
                     signature: format!("{sig}:{}", cfgs[*ci].client.name),
-                    what: format!("cfg={} wl={wl:?} drop mask {mask:#b} over datagrams #5..: {what}", cfgs[*ci].client.name),
-                    replay: json!({"check":"c02","kind":"mask","cfg":cfgs[*ci].client.name,"wl":format!("{wl:?}"),"k":6,"mask":mask,"mask_base":5}),
+                    what: format!("cfg={} wl={wl:?} drop mask {mask:#b} over datagrams #{first}..: {what}", cfgs[*ci].client.name),
+                    replay: json!({"check":"c02","kind":"mask","cfg":cfgs[*ci].client.name,"wl":format!("{wl:?}"),"k":6,"mask":mask,"mask_base":first}),
                 });
             }
         }
-        rep.part("mid_transfer_drop_masks", json!({"K": km, "first_datagram": 5, "planned": planned, "executed": res.len(), "capped": capped}));
+        rep.part("mid_transfer_drop_masks", json!({"K": km, "first_datagram": "5 (6/12 and 5..21 for the flow-control-limited configurations)", "planned": planned, "executed": res.len(), "capped": capped}));
+    }
+    // E3b2: losses among the datagrams of ONE side only (ten consecutive datagrams of that side span
+    // about twice as much of the run): a credit frame and its retransmissions, a FIN and its probes
+    {
+        let mut tasks = vec![];
+        for name in ["connwin1500", "tinywin", "win63", "streams1", "default"] {
+            let Some(ci) = cfgs.iter().position(|c| c.client.name == name) else { continue };
+            for wl in [Wl::W1, Wl::W2] {
+                if !thorough && wl != Wl::W1 {
+                    continue;
+                }
+                for node in [crate::sim::SERVER, crate::sim::CLIENT] {
+                    for first in if thorough { vec![2u64, 4, 8, 12] } else { vec![4u64] } {
+                        for mask in 1..(1u64 << 10) {
+                            tasks.push((ci, wl, node, first, mask));
+                        }
+                    }
+                }
+            }
+        }
+        let planned = tasks.len();
+        let (res, capped) = e3(tasks, dl, |(ci, wl, node, first, mask)| run_one_masks(base, &cfgs[*ci], *wl, 6, 0, 0, Some((*node, *first, *mask)), &Default::default()));
+        rep.exhaustive &= !capped;
+        for ((ci, wl, node, first, mask), o) in &res {
+            rep.evaluations += 1;
+            rep.distinct.insert(o.trace);
+            if let Some((sig, what)) = o.viol.first() {
+                rep.violation(Violation {
+                    signature: format!("{sig}:{}", cfgs[*ci].client.name),
+                    what: format!("cfg={} wl={wl:?} drop mask {mask:#b} over the {} datagrams #{first}.. : {what}", cfgs[*ci].client.name, if *node == crate::sim::SERVER { "server's" } else { "client's" }),
+                    replay: json!({"check":"c02","kind":"mask","cfg":cfgs[*ci].client.name,"wl":format!("{wl:?}"),"k":6,"mask":0,"node_mask":[node, first, mask]}),
+                });
+            }
+        }
+        rep.part("one_sided_drop_masks", json!({"K": 10, "planned": planned, "executed": res.len(), "capped": capped}));
     }
     // E3c: an impatient driver. Besides servicing events, the driver polls both connections every
     // `interval` of virtual time (a busy-polling event loop); rate-limited and window-limited senders
